@@ -47,7 +47,7 @@ PROPS = {
     },
     "C03": {
         "module": "MF.Props.C03",
-        "module_extra": ["MF.Props.C03Parser", "MF.Props.C03Types", "MF.Props.C03Expr"],
+        "module_extra": ["MF.Props.C03Parser", "MF.Props.C03Types", "MF.Props.C03Expr", "MF.Props.C03Stmt"],
         "theorems": ["MF.Props.C03.lexer_never_panics", "MF.Props.C03.lexer_error_in_range", "MF.Props.C03.recovery_lexer_total",
                      "MF.Props.C03.cursor_invariant", "MF.Props.C03.lexer_terminates", "MF.Props.C03.splitter_total",
                      "MF.Props.C03.facts_clean", "MF.Props.C03.entry_points", "MF.Props.C03.protected_functions", "MF.Props.C03.handlers_quiet",
@@ -67,14 +67,22 @@ PROPS = {
                      "MF.Props.C03.parsePExpr_terminates", "MF.Props.C03.parsePTop_terminates", "MF.Props.C03.parsePTop_terminates_bound",
                      "MF.Props.C03.parsePTop_terminates_driver", "MF.Props.C03.parsePExpr_fuel_stable", "MF.Props.C03.parsePTop_fuel_stable",
                      "MF.Props.C03.parsePTop_fuel_stable_driver", "MF.Props.C03.parsePTop_decides",
-                     "MF.Props.C03.exprPosRun_total", "MF.Props.C03.exprPosRunC_total", "MF.Props.C03.rejP_pos_facts"],
-        "channels": ["LEX", "SPLIT", "POS", "TYPE", "EXPR"],
+                     "MF.Props.C03.exprPosRun_total", "MF.Props.C03.exprPosRunC_total", "MF.Props.C03.rejP_pos_facts",
+                     "MF.Props.C03.parseQuery_terminates", "MF.Props.C03.parseQuery_terminates_bound", "MF.Props.C03.parseQueryStatement_terminates",
+                     "MF.Props.C03.parseQueryStatement_terminates_bound", "MF.Props.C03.query_fuel_linear", "MF.Props.C03.parseQuery_terminates_driver",
+                     "MF.Props.C03.parseQuery_fuel_stable", "MF.Props.C03.parseQueryStatement_fuel_stable", "MF.Props.C03.parseQuery_fuel_stable_driver",
+                     "MF.Props.C03.parseQuery_decides", "MF.Props.C03.queryRun_total",
+                     "MF.Props.C03.dml_fuel_linear", "MF.Props.C03.dml_terminates", "MF.Props.C03.dmlP_terminates", "MF.Props.C03.dmlP_terminates_driver",
+                     "MF.Props.C03.dml_fuel_stable", "MF.Props.C03.dmlP_fuel_stable", "MF.Props.C03.dmlP_fuel_stable_driver", "MF.Props.C03.dmlRun_total",
+                     "MF.Props.C03.rejQ_facts", "MF.Props.C03.rejD_facts", "MF.Props.C03.rejV_facts"],
+        "channels": ["LEX", "SPLIT", "POS", "TYPE", "EXPR", "QUERY", "DML"],
         "pred": True,
         "level": "proof",
         "trusted_base": M0_TRUST + ["hand-written model MF/Model/Split.lean of split.go", "translator tools/extract/parserfacts.go (go/ast, purely syntactic): the call graph, defer/recover shapes, Bad* literal sites, p.errors assignments, <eof> tests, token-field uses, package variables of parser.go, parse_helpers.go, lexer.go, split.go are REGENERATED from /repo on every run (lean/MF/Gen/ParserFacts.lean) and the static conditions re-decided by the kernel", "abstraction MF/Model/Recovery.lean: only *Error panics are modelled (run-time panics are explored by the predicate under recover), calls leaving the four files neither raise *Error nor call back, a Part without recognised statement structure is read flow-insensitively (any order of its events)"],
         "assumptions": ["proved: lexer and splitter never panic and terminate (byte-level model); no *Error panic escapes any Parse* entry point (no_escape over the regenerated call graph: every raise site reachable from an entry point lies under a deferred recover whose handler cannot raise)",
                         "proved for the ParseType entry point (model MF/Model/TypeParse.lean, tied to memefish.ParseType by the TYPE channel; every token list, accepted or rejected): the fuel-driven model answers ok or raise, never outOfFuel, with every fuel >= 3*|expand ts|+2 (<= 6*|ts|+2 <= the driver's topFuel), and from there on the answer does not depend on the fuel (parseType_terminates, parseType_terminates_bound, parseType_fuel_stable, parseType_decides); with lexer totality the TYPE request never answers FUEL or CRASH on any byte string (typeRun_total)",
                         "proved for the ParseExpr entry point (model MF/Model/Expr.lean of parseExpr ... parseLit for the fragment M1, tied to memefish.ParseExpr by the EXPR channel; every token list, accepted, rejected or garbage): the fuel-driven model answers ok, raise or outside, never outOfFuel, with every fuel >= exprFuel ts = 15*|ts|+15 (<= the driver's topFuel = 32*(|ts|+2)), and from there on the answer does not depend on the fuel (parseExpr_terminates, parseExprTop_terminates, parseExpr_terminates_driver, parseExpr_fuel_stable, parseExpr_decides, expr_answer_fuel_irrelevant); with lexer totality and C07.no_crash the EXPR request never answers FUEL or CRASH on any byte string (exprRun_total, exprRunRT_total); the same for the positioned twin MF/Model/ExprPos.lean of the EXPRPOS request, through the erasure theorem and a fuel-monotonicity record for the twin (parsePTop_terminates, parsePTop_fuel_stable, exprPosRunC_total); where the Go parser leaves the fragment the model answers outside and nothing further is claimed",
+                        "proved for the statement-level models on top of M1 (every token list, accepted, rejected or garbage): the SELECT core MF/Model/Query.lean (ParseQuery / ParseStatement, QUERY channel) never answers outOfFuel with every fuel >= 15*|ts|+15 (the expression bound; <= the driver's Query.topFuel = 32*(|ts|+2)), and the DML fragment MF/Model/Stmt2.lean (ParseDML / ParseDMLs / ParseStatement / ParseStatements, DML channel; instantiated with parseExpr and with parsePExpr) never with every fuel >= 15*|ts|+18 (<= the request's dmlFuel = 34*(|ts|+2)); from there on the answers do not depend on the fuel (parseQuery_terminates, parseQuery_fuel_stable, dml_terminates, dmlP_terminates, dmlP_fuel_stable); with lexer totality and no_crash the QUERY and DML requests never answer FUEL or CRASH on any byte string (queryRun_total, dmlRun_total); where the Go parser leaves the fragments the models answer outside and nothing further is claimed",
                         "NOT proved: termination of the other productions of parser.go and absence of Go run-time panics (nil dereference, index) in them: every Parse* call of the predicate runs under recover and a 5 s deadline (partial)"],
     },
     "C15": {
